@@ -362,6 +362,67 @@ Proof.
     eapply cert_complete; eauto. now rewrite firstn_all.
 Qed.
 
+(* How many leading tokens of w can be shifted: the largest k such that every
+   prefix of length <= k has an item, i.e. every one of the first k tokens
+   found an item with that terminal after the dot. *)
+Fixpoint count_nonempty (sets : list (list item)) : nat :=
+  match sets with
+  | (_ :: _) :: rest => S (count_nonempty rest)
+  | _ => 0
+  end.
+
+Definition shift_count (g : grammar) (axiom : nat) (w : list nat) : option (nat * bool) :=
+  let S := earley_sets g axiom w in
+  if cert_ok g axiom w S
+  then Some (pred (count_nonempty S), existsb (final_b axiom) (nth (length w) S []))
+  else None.
+
+Lemma count_nonempty_spec sets : forall j, j < count_nonempty sets -> nth j sets [] <> [].
+Proof.
+  induction sets as [|s sets IH]; intros j Hj; simpl in *; [lia|].
+  destruct s as [|x s]; [lia|]. destruct j; simpl; [discriminate|]. apply IH. lia.
+Qed.
+
+Lemma count_nonempty_stop sets : count_nonempty sets < length sets -> nth (count_nonempty sets) sets [] = [].
+Proof.
+  induction sets as [|s sets IH]; simpl; intros H; [lia|].
+  destruct s as [|x s]; auto. simpl. apply IH. lia.
+Qed.
+
+Lemma build_length g rest : forall k prev cur, length (build g rest k prev cur) = length prev + S (length rest).
+Proof.
+  induction rest as [|a rest IH]; intros k prev cur; cbn [build].
+  - rewrite app_length. simpl. lia.
+  - rewrite IH, app_length. simpl. lia.
+Qed.
+
+(* every one of the first k tokens can be shifted, and the (k+1)-th cannot *)
+Theorem shift_count_spec g axiom w k acc : shift_count g axiom w = Some (k, acc) ->
+  (forall j, j <= k -> j <= length w -> count_nonempty (earley_sets g axiom w) > 0 -> exists i, Item g axiom (firstn j w) i) /\
+  (k < length w -> count_nonempty (earley_sets g axiom w) > 0 -> ~ exists i, Item g axiom (firstn (S k) w) i) /\
+  (acc = true <-> sentence g axiom w).
+Proof.
+  unfold shift_count. destruct (cert_ok _ _ _ _) eqn:C; [|discriminate]. intros H; injection H as <- <-.
+  set (S := earley_sets g axiom w) in *.
+  split; [|split].
+  - intros j Hj Hjw Hpos. assert (Hlt : j < count_nonempty S) by lia.
+    pose proof (count_nonempty_spec S j Hlt) as Hne.
+    destruct (nth j S []) as [|i l] eqn:E; [congruence|]. exists i.
+    apply (earley_sets_sound g axiom w j i). fold S. rewrite E. now left.
+  - intros Hk Hpos (i & Hi).
+    assert (Hlen : length S = Datatypes.S (length w)) by (unfold S, earley_sets; rewrite build_length; simpl; lia).
+    assert (Hstop : nth (count_nonempty S) S [] = []) by (apply count_nonempty_stop; lia).
+    replace (Datatypes.S (pred (count_nonempty S))) with (count_nonempty S) in Hi by lia.
+    assert (In i (nth (count_nonempty S) S [])).
+    { eapply (cert_complete g axiom w S C); eauto. lia. }
+    rewrite Hstop in H. contradiction.
+  - rewrite <- accept_iff, existsb_exists. split.
+    + intros (i & Hi & Hf). exists i. split; [|now apply final_b_spec].
+      apply earley_sets_sound in Hi. now rewrite firstn_all in Hi.
+    + intros (i & Hi & Hf). exists i. split; [|now apply final_b_spec].
+      eapply cert_complete; eauto. now rewrite firstn_all.
+Qed.
+
 (* a non-trivial instance: S -> a S b | <empty> ; "aabb" is a sentence, "aab" is not *)
 Example recognize_ex :
   let g := [ {| lhs := 0; rhs := [T 0; N 0; T 1] |}; {| lhs := 0; rhs := [] |} ] in
